@@ -49,6 +49,8 @@ struct TState {
     try_lock_calls: usize,
     loads: usize,
     current_op: usize,
+    /// The thread actually took the baton (as opposed to merely having been designated).
+    holding: bool,
 }
 
 #[derive(Debug, Default)]
@@ -155,14 +157,18 @@ impl Exec {
         if st.threads[tid].status != Status::Finished {
             st.threads[tid].status = Status::Ready;
         }
-        if st.current == Some(tid) {
+        if st.threads[tid].holding {
             // Between two of our own steps: hand the baton to whoever is next.
+            // (A thread that has merely been designated, and arrives here for the
+            // first time, must not pass the baton on.)
+            st.threads[tid].holding = false;
             st.choose_next();
             self.cv.notify_all();
         }
         while st.current != Some(tid) && !st.free_run {
             st = self.cv.wait(st).unwrap();
         }
+        st.threads[tid].holding = true;
         st.threads[tid].steps += 1;
         if st.threads[tid].steps > STEP_LIMIT {
             // A thread that spins (a reader that never validates, a retry loop that
@@ -240,11 +246,13 @@ impl SyncHook for Exec {
                 st.solo_blocked = true;
             }
             st.threads[tid].status = Status::Blocked(addr);
+            st.threads[tid].holding = false;
             st.choose_next();
             self.cv.notify_all();
             while !(st.free_run || st.current == Some(tid)) {
                 st = self.cv.wait(st).unwrap();
             }
+            st.threads[tid].holding = true;
         }
     }
 
@@ -376,6 +384,7 @@ pub fn run(plan: Plan, target: Target) -> Outcome {
                     try_lock_calls: 0,
                     loads: 0,
                     current_op: 0,
+                    holding: false,
                 })
                 .collect(),
             locs: HashMap::new(),
@@ -457,7 +466,8 @@ pub fn run(plan: Plan, target: Target) -> Outcome {
             set_thread_hook(None);
             let mut st = exec.st.lock().unwrap();
             st.threads[tid].status = Status::Finished;
-            if st.current == Some(tid) {
+            if st.threads[tid].holding {
+                st.threads[tid].holding = false;
                 st.choose_next();
             }
             exec.cv.notify_all();
